@@ -165,13 +165,27 @@ type kase struct {
 }
 
 func (w *world) oneRogue(kind string, r *engine.Report) (string, string) {
+	if sig, msg := w.oneRogueOpts(kind, nil, r); sig != "" {
+		return sig, msg
+	}
+	// the same dial with an option list that contains a nil entry (an option
+	// the application builds conditionally and left unset): nil entries are
+	// skipped, the options after them still apply
+	sig, msg := w.oneRogueOpts(kind, []nodeenrollment.Option{nil, nodeenrollment.WithNotBeforeClockSkew(-5 * time.Minute)}, r)
+	if sig != "" {
+		return sig + ":nil-option-in-list", msg + " [dial options: a nil entry, then a clock-skew option]"
+	}
+	return "", ""
+}
+
+func (w *world) oneRogueOpts(kind string, dopt []nodeenrollment.Option, r *engine.Report) (string, string) {
 	vclock.Freeze(dialTime)
 	rg, err := harness.NewRogue(w.mint(kind))
 	if err != nil {
 		r.InfraError(err.Error())
 		return "", ""
 	}
-	conn, derr := protocol.Dial(harness.Ctx, w.n1.Store.Clone(), rg.Addr)
+	conn, derr := protocol.Dial(harness.Ctx, w.n1.Store.Clone(), rg.Addr, dopt...)
 	connected := derr == nil && conn != nil
 	peerInfo := ""
 	if connected {
